@@ -35,10 +35,28 @@ def ensure_dirs():
         os.makedirs(d, exist_ok=True)
 
 
+# Temporary files of everything a check starts (the real tako worker creates a socket directory
+# `hq-lc-*` under the temp dir for every simulated worker) go below /verif/build and are removed when
+# the check exits, instead of piling up in /tmp.
+_TMP = os.path.join(BUILD, "tmp", str(os.getpid()))
+
+
+def _cleanup_tmp():
+    import shutil
+    shutil.rmtree(_TMP, ignore_errors=True)
+
+
+import atexit  # noqa: E402
+
+atexit.register(_cleanup_tmp)
+
+
 def run(cmd, cwd=None, timeout=None, env=None, stdin=None, check=False):
     """Run a command, return (rc, stdout, stderr). rc = 124 on timeout."""
     e = dict(os.environ)
     e.update(OFFLINE_ENV)
+    os.makedirs(_TMP, exist_ok=True)
+    e["TMPDIR"] = _TMP
     if env:
         e.update(env)
     try:
